@@ -155,7 +155,9 @@ func (m *Module) prep(reports chan *report) {
 		}()
 		return
 	}
+	verifEvent("pre:prepBegin", m.Name)
 	m.status = StatusPreparing
+	verifEvent("post", m.Name)
 	m.Unlock()
 
 	// run prep function
@@ -178,7 +180,9 @@ func (m *Module) prep(reports chan *report) {
 			)
 		} else {
 			m.Lock()
+			verifEvent("pre:prepDone", m.Name)
 			m.status = StatusOffline
+			verifEvent("post", m.Name)
 			m.Unlock()
 			m.notifyOfChange()
 		}
@@ -239,7 +243,9 @@ func (m *Module) start(reports chan *report) {
 			// prepared state. Left in StatusStarting it would never be stopped or
 			// retried and would block the shutdown of all its dependencies.
 			m.Lock()
+			verifEvent("pre:startFail", m.Name)
 			m.status = StatusOffline
+			verifEvent("post", m.Name)
 			m.Unlock()
 			m.notifyOfChange()
 		} else {
